@@ -13,7 +13,10 @@ the References object being refitted.  Third round: the composition amounts are 
 (the menu's integers / every row scaled by a per-species dyadic factor = per-site compositions, all amounts
 non-integer and many below one / every entry shifted by a dyadic fraction = real-valued descriptors), in the
 references, in the targets, in pairs and in histories; reference lists in descending order and with one species
-listed twice.
+listed twice.  Fifth round: the TYPE of the descriptor keys is a deviation dimension (strings / atomic numbers
+as Python ints, one of them the falsy 0 / numpy integers in the references against Python ints in the species and the
+other way round / tuples such as ('C', 'H') / unusual strings: empty, lower-case, with blanks, digits), in the
+references, the targets, the hand-given offsets, pairs and histories.
 
 Nothing of pmutt.empirical.references is used by the oracle: the composition matrix, its rank
 and the residuals are formed here from the case description; offsets are *measured* through the
@@ -28,7 +31,8 @@ RULE = ('all subsets of 1-8 reference species of a 14-species menu (5 descriptor
         'experimental-data mode, reference-temperature mode, descriptor dictionary and the route by which the '
         'temperature reaches the species (direct, per-species kwargs, per-species overriding direct, other '
         "species' kwargs present, integer-typed) and the composition amounts (integers, rows scaled by dyadic "
-        "per-species factors, entries shifted by dyadic fractions) up to the stated "
+        "per-species factors, entries shifted by dyadic fractions) and the type of the descriptor keys (strings, "
+        "Python ints, numpy ints against Python ints, tuples, unusual strings) up to the stated "
         'deviation level (plus two configurations in which every reference has its own slightly different '
         'reference temperature), the offsets being compared in every case with the harness\'s own least-squares '
         'solution built from each reference at its own T_ref, plus descending and repeated reference lists; '
@@ -46,6 +50,8 @@ ASSUMPTIONS = ['reference species and DFT-side models come from a fixed 14-speci
                'T_ref; re-evaluating a reference through StatMech at its own T_ref (factor mean T_ref / T_ref,i) is '
                'no verdict then',
                'temperatures are scalars (HarmonicVib does not accept array T)',
+               'descriptor keys of one References object are mutually orderable (get_descriptors sorts them): one key '
+               'type per object; a numpy-integer key and the equal Python int are the same descriptor',
                'non-integer amounts are dyadic fractions (0.125 ... 2.5 x the integer amount, or shifted by -0.5 ... '
                '+0.75): exactly representable, so the harness-side composition matrix is the one the references hold']
 EXPLANATION = ('exhaustive product enumeration and explicit-state BFS on the real References / StatMech '
@@ -99,7 +105,18 @@ ROUTES = ['direct', 'species', 'override', 'other', 'int']
 COMP_MODES = ['int', 'site', 'real']
 SITE_F = [0.25, 0.5, 0.75, 1.5, 0.125, 2.5, 0.375]
 REAL_D = [0.25, -0.5, 0.375, 0.75, -0.125]
-DEFAULT = dict(exp='table', tref='equal', desc='elements', route='direct', comp='int')
+# fifth round: the type of the descriptor keys.  'Z': atomic numbers as Python ints (`groups`: other ints, one of
+# them 0, one negative, order differing from the elements'); 'npint': the same numbers, numpy integers in the
+# references and Python ints in the species that are evaluated (`groups`: the other way round) - equal keys of
+# different type; 'pair': tuples (bond-count descriptors ('C', 'H'); `groups`: (int, str)); 'odd': strings that are
+# not element symbols - empty, lower case (an absent 'h' next to a fitted 'H'), leading / trailing blanks, digits
+KEY_MODES = ['str', 'Z', 'npint', 'pair', 'odd']
+NONSTR = KEY_MODES[1:]
+Z_OF = {'H': 1, 'C': 6, 'O': 8, 'N': 7, 'S': 16, 'Xx': 0}
+G_INT = {'H': 71, 'C': -4, 'O': 30, 'N': 0, 'S': 12, 'Xx': 5}
+ODD_E = {'H': 'H', 'C': 'c', 'O': ' O', 'N': '', 'S': 'S ', 'Xx': 'h'}
+ODD_G = {'H': 'z H', 'C': 'A_c', 'O': 'm_O ', 'N': '1', 'S': '', 'Xx': 'Z H'}
+DEFAULT = dict(exp='table', tref='equal', desc='elements', route='direct', comp='int', keys='str')
 SPREAD_CFGS = [dict(DEFAULT, tref='spread'), dict(DEFAULT, exp='consistent', tref='spread', desc='groups', comp='real')]
 
 QUICK_SUB = [0, 1, 2, 3, 4, 5, 9, 10, 13]      # 9-species sub-menu used for 5-8 references in the quick tier
@@ -113,6 +130,8 @@ PLANNED_TAGS = ['rank:square-full', 'rank:over-fullcol', 'rank:deficient', 'rank
                 'desc:elements', 'desc:groups', 'resid:zero', 'resid:nonzero',
                 'target:absent-descriptor', 'target:fractional', 'target:reference-itself',
                 'target:sum-of-references', 'comp:int', 'comp:site', 'comp:real', 'comp:below-one',
+                'keys:str', 'keys:Z', 'keys:npint', 'keys:pair', 'keys:odd', 'hist:keys', 'pair:keys',
+                'offset-given:keys',
                 'order:descending', 'order:repeated', 'hist:comp-site', 'hist:comp-real', 'offset-given:no-fit', 'hist:append', 'hist:extend', 'hist:pop',
                 'hist:refit', 'hist:stale', 'hist:init-offset-given', 'hist:tref-equal', 'hist:tref-byid',
                 'hist:attached', 'route:direct', 'route:species', 'route:override', 'route:other', 'route:int',
@@ -133,6 +152,13 @@ def bounds(tier):
                 exp_modes=EXP_MODES, tref_modes=TREF_MODES + ['spread'], spread_T_minus_298_15=SPREAD_T,
                 spread_configurations=SPREAD_CFGS, descriptor_modes=DESC_MODES, routes=ROUTES,
                 composition_modes=COMP_MODES, site_factors=SITE_F, real_shifts=REAL_D,
+                key_modes=KEY_MODES,
+                key_deviation=('per subset, with k0..k2 = three of the four non-string key modes chosen by the subset: '
+                               '(k0, table|consistent) for every subset of 1-8; + (k1, consistent, site), (k2, '
+                               'consistent, groups, real) at the levels with routes; + key mode x descriptor (exp, '
+                               'T_ref, composition mode, route cycling) at the next level; + key mode x exp x T_ref '
+                               'x descriptor at the full level; offsets given by hand, pairs and histories: see '
+                               'notes/C10.md'),
                 reference_order=('ascending menu order for every subset; descending order and one reference species '
                                  'listed twice for all pairs and for the triples of ' +
                                  ('the 9-species sub-menu' if tier == 'quick' else 'the menu')),
@@ -187,6 +213,31 @@ def _configs(level):
     return out
 
 
+def _key_configs(level, s):
+    """Configurations with descriptor keys that are not plain strings, nested by construction (every level contains
+    the levels below it, so the thorough tier contains the quick one): `s` (sum of the subset's menu indices) picks
+    the key modes, so that every mode meets every subset size."""
+    k0, k1, k2 = (NONSTR[(s + j) % 4] for j in range(3))
+    out = [dict(DEFAULT, exp=EXP_MODES[(s // 4) % 2], keys=k0)]
+    if level in ('zero', 'two', 'one'):
+        return out
+    out += [dict(DEFAULT, exp='consistent', comp='site', keys=k1),
+            dict(DEFAULT, exp='consistent', desc='groups', comp='real', keys=k2)]
+    if level == 'one+r':
+        return out
+    n = s
+    for k in NONSTR:
+        for d in DESC_MODES:
+            out.append(dict(DEFAULT, exp=EXP_MODES[n % 2], tref=TREF_MODES[n % 3], desc=d, route=ROUTES[n % 5],
+                            comp=COMP_MODES[(n // 2) % 3], keys=k))
+            n += 1
+    if level == 'full+r':
+        return out
+    out += [dict(DEFAULT, exp=e, tref=t, desc=d, keys=k) for k in NONSTR for e in EXP_MODES for t in TREF_MODES
+            for d in DESC_MODES]
+    return out
+
+
 LEVELS = {'quick': {1: 'fullr', 2: 'full+r', 3: 'one+r', 4: 'one'},
           'thorough': {1: 'fullr', 2: 'fullr', 3: 'full+r', 4: 'one+r', 5: 'one+r'}}
 
@@ -199,6 +250,10 @@ def _fit_cases(tier):
         for sub in itertools.combinations(pool, k):
             for cfg in _configs(level):
                 yield dict(kind='fit', refs=list(sub), **cfg)
+            if tier == 'quick' and k == 4 and not set(sub) <= set(QUICK_SUB):
+                continue                # quick: key types for 4 references on the sub-menu only
+            for cfg in _key_configs(level, sum(sub)):
+                yield dict(kind='fit', refs=list(sub), **cfg)
     # the order of the reference list: descending, and one reference species listed twice (two Reference objects
     # with the same data: a repeated row of the composition matrix)
     for k, pool in ((2, range(n)), (3, QUICK_SUB if tier == 'quick' else range(n))):
@@ -207,6 +262,8 @@ def _fit_cases(tier):
                 for cfg in (dict(DEFAULT) if k == 2 else dict(DEFAULT, comp='real', tref='all300'),
                             dict(DEFAULT, exp='consistent', comp='site')):
                     yield dict(kind='fit', refs=refs, **cfg)
+                if k == 2:
+                    yield dict(kind='fit', refs=refs, **dict(DEFAULT, exp='consistent', keys=NONSTR[sum(sub) % 4]))
 
 
 PAIR_MAKES = ['new', 'deepcopy', 'dict']
@@ -225,6 +282,17 @@ def _pair_cases(tier):
             for make in PAIR_MAKES:
                 for edit in edits:
                     yield dict(kind='pair', a=list(a), make=make, edit=edit)
+    # the same with descriptor keys that are not plain strings (a new B is keyed by another type than A); the key
+    # mode depends on the case only, not on the pool, so that the thorough tier contains the quick cases
+    for k in (1, 2):
+        for a in itertools.combinations(pool, k):
+            edits = [['append', x] for x in pool if x not in a]
+            if k > 1:
+                edits.append(['pop'])
+            for make in PAIR_MAKES:
+                for edit in edits:
+                    n = sum(a) + PAIR_MAKES.index(make) + (edit[1] if len(edit) > 1 else 2)
+                    yield dict(kind='pair', a=list(a), make=make, edit=edit, keys=NONSTR[n % 4])
 
 
 def shards(tier):
@@ -247,6 +315,12 @@ def shards(tier):
                     if tier == 'thorough' or (plen == 2 and not given and not attach):
                         for cm in COMP_MODES[1:]:
                             out.append(dict(sh, comp=cm))
+                    # the same histories with descriptor keys that are not plain strings: quick - the fitted
+                    # histories of prefix length 2, unattached (3 rotations: Z, npint, pair) and attached (rotation
+                    # 0: odd); thorough - every history shard, key mode by (rotation, attached)
+                    km = NONSTR[(rot + (3 if attach else 0)) % 4]
+                    if tier == 'thorough' or (plen == 2 and not given and (not attach or rot == 0)):
+                        out.append(dict(sh, keys=km))
     return out
 
 
@@ -266,20 +340,40 @@ def _cheap_model():
                 elec_model=elec.GroundStateElec(potentialenergy=-3.2, spin=0))
 
 
-def _desc_dict(comp, desc):
+def _key(e, desc, keys='str', side='sp'):
+    """The key under which descriptor `e` (harness name: element symbol or 'Xx') is held by a reference
+    (side='ref') or by a species that is evaluated (side='sp')."""
+    el = desc == 'elements'
+    if keys == 'str':
+        return e if el else GROUP_OF.get(e, 'q_' + e)
+    num = (Z_OF if el else G_INT)[e]
+    if keys == 'Z':
+        return num
+    if keys == 'npint':
+        return np.int64(num) if (side == 'ref') == el else num
+    if keys == 'pair':
+        return (e, 'H') if el else (num, GROUP_OF.get(e, 'q_' + e))
+    if keys == 'odd':
+        return (ODD_E if el else ODD_G)[e]
+    raise ValueError(keys)
+
+
+def _desc_dict(comp, desc, keys='str', side='sp'):
+    if keys != 'str':
+        return {_key(k, desc, keys, side): v for k, v in comp.items()}
     if desc == 'elements':
         return dict(comp)
     return {GROUP_OF.get(k, 'q_' + k): v for k, v in comp.items()}
 
 
-def _species(name, comp, desc, refs, model):
+def _species(name, comp, desc, refs, model, keys='str'):
     """A real StatMech species carrying `comp` under the descriptor attribute."""
     from pmutt.statmech import StatMech
     if desc == 'elements':
-        sp = StatMech(name=name, elements=dict(comp), references=refs, **model)
+        sp = StatMech(name=name, elements=_desc_dict(comp, desc, keys), references=refs, **model)
     else:
         sp = StatMech(name=name, elements=None, references=refs, **model)
-        sp.groups = _desc_dict(comp, desc)
+        sp.groups = _desc_dict(comp, desc, keys)
     return sp
 
 
@@ -315,15 +409,16 @@ def _exp_HoRT(i, T_ref, exp, cmode='int'):
     return dft - sum(HIDDEN[e] * v for e, v in _comp(i, cmode).items())
 
 
-def _reference(i, T_ref, exp, desc, route='direct', cmode='int'):
+def _reference(i, T_ref, exp, desc, route='direct', cmode='int', keys='str'):
     from pmutt.empirical.references import Reference
     from pmutt.statmech import StatMech
     name, comp = MENU[i][0], _comp(i, cmode)
-    model = StatMech(name=name, elements=dict(comp) if desc == 'elements' else None, **_model(i))
-    ref = Reference(name=name, elements=dict(comp) if desc == 'elements' else None, T_ref=_num(T_ref, route),
+    el = desc == 'elements'
+    model = StatMech(name=name, elements=_desc_dict(comp, desc, keys, 'ref') if el else None, **_model(i))
+    ref = Reference(name=name, elements=_desc_dict(comp, desc, keys, 'ref') if el else None, T_ref=_num(T_ref, route),
                     HoRT_ref=_exp_HoRT(i, T_ref, exp, cmode), model=model)
-    if desc != 'elements':
-        ref.groups = _desc_dict(comp, desc)
+    if not el:
+        ref.groups = _desc_dict(comp, desc, keys, 'ref')
     return ref
 
 
@@ -331,8 +426,8 @@ def _build_refs(ids, cfg, trefs=None):
     from pmutt.empirical.references import References
     desc = cfg['desc']
     trefs = trefs or [_tref_of(p, cfg['tref']) for p in range(len(ids))]
-    lst = [_reference(i, t, cfg['exp'], desc, cfg.get('route', 'direct'), cfg.get('comp', 'int'))
-           for i, t in zip(ids, trefs)]
+    lst = [_reference(i, t, cfg['exp'], desc, cfg.get('route', 'direct'), cfg.get('comp', 'int'),
+                      cfg.get('keys', 'str')) for i, t in zip(ids, trefs)]
     return References(references=lst, descriptor=desc)
 
 
@@ -396,9 +491,11 @@ def check_refs(refs, ids, trefs, cfg, ctx, sig, case, full=True, fitted_ids=None
     desc, exp = cfg['desc'], cfg['exp']
     route = cfg.get('route', 'direct')
     cmode = cfg.get('comp', 'int')
+    keys = cfg.get('keys', 'str')
     fitted = ids if fitted_ids is None else fitted_ids
     cols, A = _matrix(fitted, cmode)
     ctx.tag('comp:' + cmode)
+    ctx.tag('keys:' + keys)
     if np.any((A > 0) & (A < 1)):
         ctx.tag('comp:below-one')
     rclass, rank = _rank_class(A)
@@ -409,12 +506,12 @@ def check_refs(refs, ids, trefs, cfg, ctx, sig, case, full=True, fitted_ids=None
     # (1) (2) the fitted references themselves, evaluated through StatMech at their reference temperature
     obs, expv, dft, dft0 = [], [], [], []
     for i, t in zip(fitted, trefs):
-        sp = _species(MENU[i][0], _comp(i, cmode), desc, refs, _model(i))
+        sp = _species(MENU[i][0], _comp(i, cmode), desc, refs, _model(i), keys)
         obs.append(_get(sp, 'get_HoRT', t, route))
         dft.append(_get(sp, 'get_HoRT', t, route, use_references=False))
         # the same species built without any References object, at ITS OWN reference temperature (for the
         # least-squares statement below)
-        dft0.append(_get(_species(MENU[i][0], _comp(i, cmode), desc, None, _model(i)), 'get_HoRT', t, route))
+        dft0.append(_get(_species(MENU[i][0], _comp(i, cmode), desc, None, _model(i), keys), 'get_HoRT', t, route))
         expv.append(_exp_HoRT(i, t, exp, cmode))
         ctx.evals(3)
     ctx.tag('target:reference-itself')
@@ -436,10 +533,10 @@ def check_refs(refs, ids, trefs, cfg, ctx, sig, case, full=True, fitted_ids=None
 
     # targets: unit compositions measure the offsets through the public getter
     cheap = _cheap_model()
-    sp0 = _species('t', {'H': 1}, desc, None, cheap)        # no references: composition is irrelevant
+    sp0 = _species('t', {'H': 1}, desc, None, cheap, keys)  # no references: composition is irrelevant
 
     def dH(comp, T, getter='get_HoRT'):
-        spw = _species('t', comp, desc, refs, cheap)
+        spw = _species('t', comp, desc, refs, cheap, keys)
         ctx.evals(2)
         return _delta(spw, sp0, getter, T, route)
 
@@ -492,8 +589,8 @@ def check_refs(refs, ids, trefs, cfg, ctx, sig, case, full=True, fitted_ids=None
     from pmutt import constants as c
     i = ids[0]
     comp = _comp(i, cmode)
-    spw = _species(MENU[i][0], comp, desc, refs, _model(i))
-    spn = _species(MENU[i][0], comp, desc, None, _model(i))
+    spw = _species(MENU[i][0], comp, desc, refs, _model(i), keys)
+    spn = _species(MENU[i][0], comp, desc, None, _model(i), keys)
 
     def g_(sp, getter, T, **extra):
         return _get(sp, getter, T, route, **extra)
@@ -580,10 +677,11 @@ def _check_calls(refs, cfg, unit, T_fit, ctx, sig, case):
     arguments edited in place between two calls, the per-mode breakdown."""
     import copy
     desc, route = cfg['desc'], cfg.get('route', 'direct')
+    keys = cfg.get('keys', 'str')
     cheap = _cheap_model()
     comp = {'H': 2, 'O': 1, 'C': 1}
-    spw = _species('t', comp, desc, refs, cheap)
-    sp0 = _species('t', comp, desc, None, cheap)
+    spw = _species('t', comp, desc, refs, cheap, keys)
+    sp0 = _species('t', comp, desc, None, cheap, keys)
     held = getattr(spw, desc)                       # the dictionary the species holds
     T1, T2 = 500.0, 800.0
     kw = _kw('t', T1, route)
@@ -620,9 +718,13 @@ def _check_calls(refs, cfg, unit, T_fit, ctx, sig, case):
     ok &= ctx.close('keyword dictionary edited in place between two calls: answer for its new content',
                     d2 * T2 / T_fit, lin, s, case, rtol=1e-9, scale=mag * T2 / T_fit + 0.6)
     # the composition edited in place: answer for the new composition
-    key = [k for k in held if k.endswith('H')][0]
-    held[key] += 1
-    held['Xx'] = 3
+    if keys == 'str':
+        key = [k for k in held if k.endswith('H')][0]
+        held[key] += 1
+        held['Xx'] = 3
+    else:
+        held[_key('H', desc, keys)] += 1
+        held[_key('Xx', desc, keys)] = 3
     d3 = np.array([spw.get_HoRT(**kw) - sp0.get_HoRT(**kw), spw.get_GoRT(**kw) - sp0.get_GoRT(**kw)])
     ok &= ctx.close('composition edited in place between two calls: answer for its new content',
                     d3 * T2 / T_fit, [lin + unit['H'] + 3 * unit['Xx']] * 2, s, case, rtol=1e-9,
@@ -645,14 +747,17 @@ def _same(a, b):
 # ------------------------------------------------------------------ fit cases
 def _fit_sig(case):
     _, A = _matrix(case['refs'], case.get('comp', 'int'))
-    return dict(kind='fit', rank=_rank_class(A)[0], exp=case['exp'], tref=case['tref'], desc=case['desc'],
-                route=case.get('route', 'direct'), comp=case.get('comp', 'int'))
+    sig = dict(kind='fit', rank=_rank_class(A)[0], exp=case['exp'], tref=case['tref'], desc=case['desc'],
+               route=case.get('route', 'direct'), comp=case.get('comp', 'int'))
+    if case.get('keys', 'str') != 'str':
+        sig['keys'] = case['keys']
+    return sig
 
 
 def _run_fit(case, ctx):
     ids = case['refs']
     cfg = dict(exp=case['exp'], tref=case['tref'], desc=case['desc'], route=case.get('route', 'direct'),
-               comp=case.get('comp', 'int'))
+               comp=case.get('comp', 'int'), keys=case.get('keys', 'str'))
     sig = _fit_sig(case)
     if len(set(ids)) < len(ids):
         ctx.tag('order:repeated')
@@ -671,8 +776,11 @@ def _run_fit(case, ctx):
 
 
 def _offset_sig(case):
-    return dict(kind='offset-given', desc=case['desc'], with_refs=bool(case.get('with_refs')),
-                route=case.get('route', 'direct'))
+    sig = dict(kind='offset-given', desc=case['desc'], with_refs=bool(case.get('with_refs')),
+               route=case.get('route', 'direct'))
+    if case.get('keys', 'str') != 'str':
+        sig['keys'] = case['keys']
+    return sig
 
 
 def _run_offset(case, ctx):
@@ -682,22 +790,25 @@ def _run_offset(case, ctx):
     from pmutt.empirical.references import References
     desc = case['desc']
     route = case.get('route', 'direct')
-    offs = {(_desc_dict({e: 1}, desc).popitem()[0]): v for e, v in case['offset'].items()}
+    keys = case.get('keys', 'str')
+    offs = {(_desc_dict({e: 1}, desc, keys, 'ref').popitem()[0]): v for e, v in case['offset'].items()}
     offs0 = copy.deepcopy(offs)
     with_refs = case.get('with_refs')
     lst = None
     if with_refs:
-        lst = [_reference(i, T0, 'table', desc) for i in with_refs]
+        lst = [_reference(i, T0, 'table', desc, keys=keys) for i in with_refs]
+    if keys != 'str':
+        ctx.tag('offset-given:keys')
     refs = References(offset=offs, references=lst, descriptor=desc, T_ref=case['T_ref'])
     ctx.trace()
     ctx.tag('offset-given:no-fit')
     ctx.tag('route:' + route)
     sig = _offset_sig(case)
     cheap = _cheap_model()
-    sp0 = _species('t', {'H': 1}, desc, None, cheap)
+    sp0 = _species('t', {'H': 1}, desc, None, cheap, keys)
     T_ref = case['T_ref']
     for comp in ({'H': 2, 'O': 1}, {'C': 1, 'H': 4}, {'H': 1.5, 'N': 0.5, 'Xx': 2}, {'S': 1, 'O': 2}, {}):
-        spw = _species('t', comp, desc, refs, cheap)
+        spw = _species('t', comp, desc, refs, cheap, keys)
         lin = -sum(case['offset'].get(e, 0.0) * v for e, v in comp.items())
         for T in _temps(route):
             d = _delta(spw, sp0, 'get_HoRT', T, route)
@@ -715,7 +826,7 @@ def _run_offset(case, ctx):
                   rtol=0.0, atol=0.0)
     ctx.true('the offset dictionary given by the caller is left as it was', _same(offs, offs0), sig, case,
              observed=repr(offs), expected=repr(offs0))
-    key = ('offset', desc, route, case['T_ref'], bool(with_refs), sorted(case['offset'].items()))
+    key = ('offset', desc, route, case['T_ref'], bool(with_refs), sorted(case['offset'].items()), keys)
     ctx.state(key)
     ctx.nontrivial(key)
 
@@ -727,6 +838,15 @@ def _offset_cases():
                 for offs in ({'H': -123.4, 'O': -186.9}, dict(HIDDEN), {'C': 12.5}, {'H': -123, 'O': 7, 'N': 0}, {}):
                     for wr in (None, [0, 2]):
                         yield dict(kind='offset', desc=desc, route=route, T_ref=T_ref, offset=offs, with_refs=wr)
+    # offsets given by hand under keys that are not plain strings (route and T_ref cycling)
+    n = 0
+    for keys in NONSTR:
+        for desc in DESC_MODES:
+            for offs in ({'H': -123.4, 'O': -186.9}, dict(HIDDEN), {'C': 12.5}, {'H': -123, 'O': 7, 'N': 0}, {}):
+                for wr in (None, [0, 2]):
+                    yield dict(kind='offset', desc=desc, route=ROUTES[n % 5], T_ref=(T0, 300.0, 500)[n % 3],
+                               offset=offs, with_refs=wr, keys=keys)
+                    n += 1
 
 
 # ------------------------------------------------------------------ two References objects at once
@@ -734,7 +854,10 @@ PCFG_B = dict(exp='consistent', tref='all300', desc='elements')
 
 
 def _pair_sig(case):
-    return dict(kind='pair', make=case['make'], edit=case['edit'][0])      # composition modes: see _run_pair
+    sig = dict(kind='pair', make=case['make'], edit=case['edit'][0])      # composition modes: see _run_pair
+    if case.get('keys', 'str') != 'str':
+        sig['keys'] = case['keys']
+    return sig
 
 
 def _run_pair(case, ctx):
@@ -748,22 +871,29 @@ def _run_pair(case, ctx):
     cfgA = dict(exp='table', tref='equal' if len(a_ids) == 2 else 'all300',
                 desc='groups' if (make == 'deepcopy' and len(a_ids) % 2) else 'elements',
                 comp=COMP_MODES[(sum(a_ids) + PAIR_MAKES.index(make)) % 3])
+    keysA = cfgA['keys'] = case.get('keys', 'str')
+    if keysA != 'str':
+        ctx.tag('pair:keys')
     tA = _tref_of(0, cfgA['tref'])
     trefsA = [tA] * len(a_ids)
-    lstA = [_reference(i, t, cfgA['exp'], cfgA['desc'], cmode=cfgA['comp']) for i, t in zip(a_ids, trefsA)]
+    lstA = [_reference(i, t, cfgA['exp'], cfgA['desc'], cmode=cfgA['comp'], keys=keysA)
+            for i, t in zip(a_ids, trefsA)]
     lst_before = list(lstA)
     A = References(references=lstA, descriptor=cfgA['desc'])
     T = 650.0
-    a0 = _measure_offsets(A, T, cfgA['desc'])
+    a0 = _measure_offsets(A, T, cfgA['desc'], keysA)
     tr0 = float(A.T_ref)
-    mover = _species('t', {'H': 3, 'O': 1, 'C': 2}, cfgA['desc'], A, _cheap_model())
+    mover = _species('t', {'H': 3, 'O': 1, 'C': 2}, cfgA['desc'], A, _cheap_model(), keysA)
     m0 = mover.get_HoRT(T=T)
     b_ids = a_ids + [edit[1]] if edit[0] == 'append' else a_ids[:-1]
     ctx.tag('pair:' + make)
     if make == 'new':
         cfgB = dict(PCFG_B, comp=COMP_MODES[(COMP_MODES.index(cfgA['comp']) + 1 + len(a_ids) % 2) % 3])
+        # a new B next to an A with non-string keys is keyed by another type (tuples next to ints ...)
+        cfgB['keys'] = 'str' if keysA == 'str' else NONSTR[(NONSTR.index(keysA) + 1 + len(a_ids)) % 4]
         trefsB = [300.0] * len(b_ids)
-        lstB = [_reference(i, t, cfgB['exp'], cfgB['desc'], cmode=cfgB['comp']) for i, t in zip(b_ids, trefsB)]
+        lstB = [_reference(i, t, cfgB['exp'], cfgB['desc'], cmode=cfgB['comp'], keys=cfgB['keys'])
+                for i, t in zip(b_ids, trefsB)]
         # every option spelled out, offset=None and a T_ref that the fit has to replace
         B = References(offset=None, references=lstB, descriptor='elements', T_ref=777.0)
     else:
@@ -777,10 +907,10 @@ def _run_pair(case, ctx):
                  isinstance(B, References) and B.references is not A.references
                  and all(isinstance(r, Reference) for r in B.references)
                  and not any(rb is ra for rb, ra in zip(B.references, A.references)), sig, case)
-        ctx.close('a copy reports the offsets and T_ref of the original', _measure_offsets(B, T, cfgB['desc'])
+        ctx.close('a copy reports the offsets and T_ref of the original', _measure_offsets(B, T, cfgB['desc'], keysA)
                   + [float(B.T_ref)], a0 + [tr0], sig, case, rtol=0.0, atol=0.0)
         if edit[0] == 'append':
-            B.append(_reference(edit[1], tA, cfgB['exp'], cfgB['desc'], cmode=cfgB['comp']))
+            B.append(_reference(edit[1], tA, cfgB['exp'], cfgB['desc'], cmode=cfgB['comp'], keys=keysA))
         else:
             B.pop()
         B.fit_HoRT_offset()
@@ -791,7 +921,7 @@ def _run_pair(case, ctx):
                    case, rtol=1e-12)
     # A after B was made, edited and refitted
     ok &= ctx.close('making, editing and refitting another References object leaves the first one as it was',
-                    _measure_offsets(A, T, cfgA['desc']) + [float(A.T_ref), mover.get_HoRT(T=T)], a0 + [tr0, m0],
+                    _measure_offsets(A, T, cfgA['desc'], keysA) + [float(A.T_ref), mover.get_HoRT(T=T)], a0 + [tr0, m0],
                     sig, case, rtol=0.0, atol=0.0)
     ok &= ctx.true('the list of references given to the constructor still holds the same objects',
                    len(lstA) == len(lst_before) and all(x is y for x, y in zip(lstA, lst_before))
@@ -799,9 +929,9 @@ def _run_pair(case, ctx):
     if ok:
         ok &= check_refs(A, a_ids, trefsA, cfgA, ctx, dict(sig, obj='A'), case, full=False)
         ok &= check_refs(B, b_ids, trefsB, cfgB, ctx, dict(sig, obj='B'), case, full=False)
-    if ok and cfgA['desc'] == cfgB['desc']:
+    if ok and cfgA['desc'] == cfgB['desc'] and keysA == cfgB['keys']:
         # the same species object handed from A to B: the answer is the one for its new References object
-        fresh = _species('t', {'H': 3, 'O': 1, 'C': 2}, cfgB['desc'], B, _cheap_model())
+        fresh = _species('t', {'H': 3, 'O': 1, 'C': 2}, cfgB['desc'], B, _cheap_model(), keysA)
         mover.references = B
         ctx.close('a species whose references attribute is replaced reports the new adjustment',
                   [mover.get_HoRT(T=T), mover.get_GoRT(T=T)], [fresh.get_HoRT(T=T), fresh.get_GoRT(T=T)], sig, case,
@@ -820,9 +950,11 @@ def _hT(i, init):
 def _hist_init(init):
     """A real References object for the initial state; returns (refs, current ids, fitted ids)."""
     from pmutt.empirical.references import References
-    lst = [_reference(i, _hT(i, init), 'table', 'elements', cmode=init.get('comp', 'int')) for i in init['refs']]
+    keys = init.get('keys', 'str')
+    lst = [_reference(i, _hT(i, init), 'table', 'elements', cmode=init.get('comp', 'int'), keys=keys)
+           for i in init['refs']]
     if init['given']:
-        refs = References(offset={'H': 1.0, 'O': -2.0}, references=lst)
+        refs = References(offset=_desc_dict({'H': 1.0, 'O': -2.0}, 'elements', keys, 'ref'), references=lst)
         fitted = None
     else:
         refs = References(references=lst)
@@ -835,7 +967,8 @@ def _hist_init(init):
 
 
 def _href(i, init, refs):
-    ref = _reference(i, _hT(i, init), 'table', 'elements', cmode=init.get('comp', 'int'))
+    ref = _reference(i, _hT(i, init), 'table', 'elements', cmode=init.get('comp', 'int'),
+                     keys=init.get('keys', 'str'))
     if init.get('attach'):
         ref.model.references = refs
     return ref
@@ -868,10 +1001,10 @@ def _hist_ops(cur, pool):
     return ops
 
 
-def _measure_offsets(refs, T, desc='elements'):
+def _measure_offsets(refs, T, desc='elements', keys='str'):
     cheap = _cheap_model()
-    sp0 = _species('t', {'H': 1}, desc, None, cheap)
-    return [_delta(_species('t', {e: 1}, desc, refs, cheap), sp0, 'get_HoRT', T) for e in ELEMS]
+    sp0 = _species('t', {'H': 1}, desc, None, cheap, keys)
+    return [_delta(_species('t', {e: 1}, desc, refs, cheap, keys), sp0, 'get_HoRT', T) for e in ELEMS]
 
 
 def _hist_sig(case):
@@ -883,6 +1016,8 @@ def _hist_sig(case):
         sig['attached'] = True
     if case['init'].get('comp', 'int') != 'int':
         sig['comp'] = case['init']['comp']
+    if case['init'].get('keys', 'str') != 'str':
+        sig['keys'] = case['init']['keys']
     return sig
 
 
@@ -891,14 +1026,17 @@ def _run_hist(case, ctx, res=None):
     sig = _hist_sig(case)
     refs, cur, fitted = _hist_init(case['init'])
     # a species created before the history holds the same References object
-    early = _species('early', {'H': 2, 'O': 1, 'C': 1}, 'elements', refs, _cheap_model())
+    keys = case['init'].get('keys', 'str')
+    early = _species('early', {'H': 2, 'O': 1, 'C': 1}, 'elements', refs, _cheap_model(), keys)
     if case['init']['given']:
         ctx.tag('hist:init-offset-given')
     attach = bool(case['init'].get('attach'))
     cmode = case['init'].get('comp', 'int')
-    hcfg = dict(HCFG, comp=cmode)
+    hcfg = dict(HCFG, comp=cmode, keys=keys)
     if attach:
         ctx.tag('hist:attached')
+    if keys != 'str':
+        ctx.tag('hist:keys')
     if cmode != 'int':
         ctx.tag('hist:comp-' + cmode)
     for op in case['ops']:
@@ -918,21 +1056,21 @@ def _run_hist(case, ctx, res=None):
     # history oracle: the offsets equal those of a fit built from scratch on the list last fitted
     scratch = _build_refs(fitted, hcfg, trefs)
     T = 650.0
-    a, b = _measure_offsets(refs, T), _measure_offsets(scratch, T)
+    a, b = _measure_offsets(refs, T, keys=keys), _measure_offsets(scratch, T, keys=keys)
     ctx.evals(20)
     ok = ctx.close('offsets after the history equal a fit from scratch of the same references', a, b, sig, case,
                    rtol=1e-9, scale=np.abs(b) + 100.0)
     ok &= ctx.close('T_ref after the history equals T_ref of the fit from scratch', float(refs.T_ref),
                     float(scratch.T_ref), sig, case, rtol=1e-12)
-    late = _species('early', {'H': 2, 'O': 1, 'C': 1}, 'elements', refs, _cheap_model())
+    late = _species('early', {'H': 2, 'O': 1, 'C': 1}, 'elements', refs, _cheap_model(), keys)
     ok &= ctx.close('a species created before the history sees the refitted offsets',
                     [early.get_HoRT(T=T), early.get_GoRT(T=T)], [late.get_HoRT(T=T), late.get_GoRT(T=T)], sig,
                     case, rtol=1e-12)
     if attach and cur:
         # the reference species that carry the References object report what a fresh species reports
         held = [r.model.get_HoRT(T=r.T_ref) for r in refs]
-        fresh = [_species(MENU[i][0], _comp(i, cmode), 'elements', refs, _model(i)).get_HoRT(T=_hT(i, case['init']))
-                 for i in cur]
+        fresh = [_species(MENU[i][0], _comp(i, cmode), 'elements', refs, _model(i),
+                          keys).get_HoRT(T=_hT(i, case['init'])) for i in cur]
         ctx.evals(2 * len(cur))
         ok &= ctx.close('reference species carrying the References object report the adjusted enthalpy of a fresh '
                         'species', held, fresh, sig, case, rtol=1e-12)
@@ -961,7 +1099,8 @@ def run_shard(shard, ctx):
                 continue
             sig = _fit_sig(case)
             ctx.run_case(_run_fit, case, sig)
-            key = ('fit', tuple(case['refs']), case['exp'], case['tref'], case['desc'], case['route'], case['comp'])
+            key = ('fit', tuple(case['refs']), case['exp'], case['tref'], case['desc'], case['route'], case['comp'],
+                   case['keys'])
             ctx.state(key)
             if sig['rank'] != 'square-full' or {k: case[k] for k in DEFAULT} != DEFAULT:
                 ctx.nontrivial(key)
@@ -977,7 +1116,7 @@ def run_shard(shard, ctx):
             if n % shard['nparts'] != shard['part']:
                 continue
             ctx.run_case(_run_pair, case, _pair_sig(case))
-            key = ('pair', tuple(case['a']), case['make'], tuple(case['edit']))
+            key = ('pair', tuple(case['a']), case['make'], tuple(case['edit']), case.get('keys', 'str'))
             ctx.state(key)
             ctx.nontrivial(key)
             if n % 97 == shard['part']:
@@ -989,13 +1128,16 @@ def run_shard(shard, ctx):
         init['attach'] = True
     if shard.get('comp', 'int') != 'int':
         init['comp'] = shard['comp']
+    if shard.get('keys', 'str') != 'str':
+        init['keys'] = shard['keys']
     pool, depth = shard['pool'], shard['depth']
     root = dict(kind='hist', init=init, ops=[])
     res = {}
     if not ctx.run_case(lambda c_, x_: _run_hist(c_, x_, res), root, _hist_sig(root)):
         return
     seen = {res['key']}
-    hkey = ('hist', init['given'], init['tref'], bool(init.get('attach')), init.get('comp', 'int'))
+    hkey = ('hist', init['given'], init['tref'], bool(init.get('attach')), init.get('comp', 'int'),
+            init.get('keys', 'str'))
     ctx.state(hkey + res['key'])
     frontier = [([], res['key'][0])]
     for d in range(depth):
@@ -1022,8 +1164,9 @@ def run_shard(shard, ctx):
 
 LEVEL_TEXT = ('Exhaustive enumeration of every subset of 1-8 reference species of a 14-species menu over five '
               'descriptors (square, over-determined, under-determined and rank-deficient composition matrices), '
-              'crossed with experimental-data, reference-temperature, descriptor-dictionary and composition-amount '
-              '(integer / per-site scaled / real-valued) modes up to the '
+              'crossed with experimental-data, reference-temperature, descriptor-dictionary, composition-amount '
+              '(integer / per-site scaled / real-valued) and descriptor-key-type (strings / Python ints / numpy ints '
+              'against Python ints / tuples / unusual strings) modes up to the '
               'stated deviation level, each fitted by the real References class and evaluated through real '
               'StatMech species with the temperature supplied directly, through the per-species keyword '
               'dictionary, through both, next to other species\' dictionaries, and integer-typed; plus '
@@ -1031,7 +1174,7 @@ LEVEL_TEXT = ('Exhaustive enumeration of every subset of 1-8 reference species o
               'References object attached) compared with a fit from scratch; plus pairs of References objects '
               '(new / deepcopy / to_dict-from_dict, edited and refitted) alive at once. All clauses evaluated in '
               'every case.')
-LEVEL_NOTE = ('Menu of 14 species / 5 descriptors x 3 composition-amount modes; pairs and triples also in descending '
+LEVEL_NOTE = ('Menu of 14 species / 5 descriptors x 3 composition-amount modes x 5 descriptor-key types; pairs and triples also in descending '
               'order and with one species listed twice; quick: all subsets of size 1-4 plus size 5-8 of a 9-species '
               'sub-menu, history depth 4; thorough: all 12910 subsets, depth 5. With unequal reference '
               'temperatures (alternating 298.15 / 300 K, or every reference its own 298.15 + d K) the verdicts are the '
